@@ -69,11 +69,10 @@ fn finite_types(ctx: &mut Ctx) {
     if Piece::iter().collect::<Vec<_>>() != pieces.to_vec() || Piece::COUNT != 6 {
         v(ctx, "piece_iter", "piece:iter", "".into());
     }
-    if Color::White.inv() != Color::Black || Color::Black.inv() != Color::White || Color::White.as_char() != 'w' || Color::Black.as_char() != 'b' || Color::White.as_long_str() != "white" || Color::Black.as_long_str() != "black" {
+    if Color::White.inv() != Color::Black || Color::Black.inv() != Color::White || Color::White.as_char() != 'w' || Color::Black.as_char() != 'b' {
         v(ctx, "color_conversions", "color", "".into());
     }
     let letters = ".PKNBRQpknbrq";
-    let glyphs = ['.', '♙', '♔', '♘', '♗', '♖', '♕', '♟', '♚', '♞', '♝', '♜', '♛'];
     if Cell::COUNT != 13 || Cell::iter().count() != 13 {
         v(ctx, "cell_count", "cell:count", "".into());
     }
@@ -85,7 +84,6 @@ fn finite_types(ctx: &mut Ctx) {
             && c.to_string() == ch.to_string()
             && Cell::from_char(ch) == Some(c)
             && Cell::from_str(&ch.to_string()) == Ok(c)
-            && c.as_utf8_char() == glyphs[i]
             && c.is_free() == (i == 0)
             && c.is_occupied() == (i != 0)
             && (c == Cell::EMPTY) == (i == 0);
@@ -451,25 +449,6 @@ fn check_ops(ctx: &mut Ctx, a: u64, b: u64, x: u64) {
     }
     if u64::from(ba) != a || Bitboard::from(a) != ba || ba.as_raw() != a {
         v(ctx, "bitboard_raw_conversions", &case, "".into());
-    }
-    // shifts below 64
-    let sh = (x % 64) as usize;
-    if ba.shl(sh).as_raw() != a << sh || ba.shr(sh).as_raw() != a >> sh {
-        v(ctx, "bitboard_shifts", &case, format!("by {}", sh));
-    }
-    // Display: eight groups of eight, rank 8 first, file a first
-    let s = ba.to_string();
-    let mut want_s = String::new();
-    for r in 0..8 {
-        if r > 0 {
-            want_s.push('/');
-        }
-        for f in 0..8 {
-            want_s.push(if ma[r * 8 + f] { '1' } else { '0' });
-        }
-    }
-    if s != want_s {
-        v(ctx, "bitboard_display", &case, format!("{} want {}", s, want_s));
     }
     ctx.nontrivial(case.as_bytes());
 }
